@@ -22,8 +22,8 @@ use serde_json::json;
 use std::collections::BTreeMap;
 use std::sync::Mutex;
 
-pub const LADDER: [u64; 22] =
-    [0, 1, 2, 5, 8, 9, 20, 48, 100, 200, 400, 800, 1500, 3000, 6000, 9000, 12000, 16384, 24000, 32768, 49152, 65536];
+pub const LADDER: [u64; 26] =
+    [0, 1, 2, 3, 5, 8, 9, 13, 20, 30, 48, 70, 100, 200, 400, 800, 1500, 3000, 6000, 9000, 12000, 16384, 24000, 32768, 49152, 65536];
 
 #[derive(Debug, Clone, Serialize, Deserialize, PartialEq)]
 pub enum Fam {
@@ -462,9 +462,19 @@ fn evaluate(job: &Job, what: &str, n: u64, cell: &Cell, seed: u64, out: &mut Job
         out.violations.push(Violation { sub: "population".into(), clause: clause.into(), detail, case: case.clone() });
     };
     // bias
-    let bias_limit = 6.0 * se + 0.2 * rse;
+    // "no bias beyond sampling noise": 6 standard errors of the mean plus an allowance for the systematic error
+    // the estimators are known to carry, as a fraction of the advertised RSE. Calibrated on the unchanged tree at
+    // T = 20 000 (3396 cells): (|mean| - 6 SE) / RSE is at most 0.013 everywhere except the ICON estimator of a
+    // merged CPC sketch at lg_k 4 (+1.6 % = 0.10 RSE, a property of the ICON polynomial shared with Java/C++)
+    // and coupon-mode cells, whose RSE is 5e-5 and whose interpolation error is deterministic (0.04 RSE).
+    let slack = match &job.fam {
+        Fam::Hll { .. } if cell.est_counts[1] == 0 && cell.est_counts[2] == 0 => 0.2,
+        Fam::Cpc if job.lg_k <= 5 && job.path == Path::Merged => 0.2,
+        _ => 0.05,
+    };
+    let bias_limit = 6.0 * se + slack * rse;
     if mean.abs() > bias_limit + 1e-15 {
-        fail("C01.bias", format!("{job:?} {what} n={n}: mean relative error {mean:.5} over {t} trials exceeds 6 SE + 0.2 RSE = {bias_limit:.5} (sd {sd:.5}, advertised RSE {rse:.5})"));
+        fail("C01.bias", format!("{job:?} {what} n={n}: mean relative error {mean:.5} over {t} trials exceeds 6 SE + {slack} RSE = {bias_limit:.5} (sd {sd:.5}, advertised RSE {rse:.5})"));
     }
     // spread: standard deviation of the central 99 % of the trials. Rare coupon collisions at tiny
     // n (one trial in thousands off by 1/n) make the plain sample sd a heavy-tailed statistic.
@@ -508,7 +518,7 @@ fn run_job(job: &Job, idx: usize, ctx: &Ctx, trials: u64) -> JobOut {
     match job.path {
         Path::Merged => {
             // a few cardinalities per job
-            let ns: Vec<u64> = [20u64, 400, 3000, 16384, 65536].into_iter().filter(|&n| n <= 65536).collect();
+            let ns: Vec<u64> = [12u64, 20, 36, 400, 3000, 16384, 65536].into_iter().filter(|&n| n <= 65536).collect();
             let mut cells: BTreeMap<(&'static str, u64), Cell> = BTreeMap::new();
             let per = (trials / 2).max(60);
             'outer: for &n in &ns {
@@ -632,7 +642,7 @@ fn trials_for(job: &Job, base: u64) -> u64 {
 
 fn population(ctx: &Ctx) -> SubReport {
     let mut rep = SubReport {
-        rule: "one job per (family, configuration, path); T trials per job, each a generated stream seed expanded into distinct random u64 keys and read at the ladder 0,1,2,5,8,9,20,...,65536 (merged jobs: 5 cardinalities, 2..4 overlapping parts, optionally one part of larger lg_k); deterministic clauses on every reading, bias / spread / coverage per (job, n) cell; a trial is non-trivial when some reading came from an estimating regime (HLL array, CPC any, theta theta<1 or merged); distinct by stream seed".into(),
+        rule: "one job per (family, configuration, path); T trials per job, each a generated stream seed expanded into distinct random u64 keys and read at the ladder 0,1,2,3,5,8,9,13,20,30,48,70,100,...,65536 (merged jobs: 7 cardinalities, 2..4 overlapping parts, optionally one part of larger lg_k); deterministic clauses on every reading, bias / spread / coverage per (job, n) cell; a trial is non-trivial when some reading came from an estimating regime (HLL array, CPC any, theta theta<1 or merged); distinct by stream seed".into(),
         ..Default::default()
     };
     let thorough = ctx.tier == crate::kit::Tier::Thorough;
@@ -677,9 +687,9 @@ fn population(ctx: &Ctx) -> SubReport {
                 }
             }
         }
-        if ctx.tier == crate::kit::Tier::Quick || !o.violations.is_empty() {
+        if ctx.tier == crate::kit::Tier::Quick || !o.violations.is_empty() || std::env::var("VERIF_C01_DUMP").is_ok() {
             // keep the evidence file readable: full tables only for a few jobs
-            if table.len() < 12 || !o.violations.is_empty() {
+            if table.len() < 12 || !o.violations.is_empty() || std::env::var("VERIF_C01_DUMP").is_ok() {
                 table.push(json!({"job": o.job, "cells": o.rows}));
             }
         }
@@ -691,6 +701,11 @@ fn population(ctx: &Ctx) -> SubReport {
     rep.extra.insert("worst_bias_over_limit".into(), json!(worst_bias));
     rep.extra.insert("worst_sd_over_limit".into(), json!(worst_sd));
     rep.extra.insert("min_coverage_in_estimating_cells".into(), json!(min_cov));
+    if let Ok(f) = std::env::var("VERIF_C01_DUMP") {
+        // calibration aid: every (job, cell) row
+        let _ = std::fs::write(f, serde_json::to_vec(&table).unwrap_or_default());
+        table.truncate(12);
+    }
     rep.extra.insert("cell_tables_sample".into(), json!(table));
     rep
 }
